@@ -1,6 +1,7 @@
 /-
   Line-protocol handler for C13.
   c13 shape <schema> <jval>   → ok | refused
+  c13 path <schema> n (hname haskey nkeys hkey*)*   → ok | refused
      schema = n node*     node = L hname (0|1) | C hname schema | K hname nkeys hkey* schema
      jval   = s | n | t | z (null) | a k jval* | o k (hname jval)*
 -/
@@ -74,6 +75,16 @@ mutual
     | _, _, _ => none
 end
 
+/-- segments: hname (0|1) nkeys hkey* -/
+def pSegs : Nat → Pr (List Seg)
+  | 0, r => some ([], r)
+  | k + 1, hn :: hk :: nk :: r => match unhexStr hn, nk.toNat? with
+    | some n, some m => match pStrs m r with
+      | some (keys, r1) => (pSegs k r1).map fun (sgs, r2) => ({ name := n, keys := keys, hasKey := hk == "1" } :: sgs, r2)
+      | none => none
+    | _, _ => none
+  | _, _ => none
+
 def handle (toks : List String) : String :=
   let fuel := toks.length + 3
   match toks with
@@ -84,6 +95,15 @@ def handle (toks : List String) : String :=
       | some (_, []) => "refused"
       | _ => "bad-op doc"
     | none => "bad-op schema"
+  | "path" :: rest =>
+    match pSchema fuel rest with
+    | some (ss, n :: r1) => match n.toNat? with
+      | some k => match pSegs k r1 with
+        | some (segs, []) => match pathVerdict (some ss) segs with
+          | .ok => "ok" | .refused => "refused"
+        | _ => "bad-op segs"
+      | none => "bad-op"
+    | _ => "bad-op schema"
   | _ => "bad-op"
 
 end YangVerif.Drv.C13
